@@ -71,6 +71,26 @@ static int expiry(int timeout, int64_t deadline)
   ENS("C05/expiry.ledger_unchanged", g.open == OLD(g.open) && g.lib == OLD(g.lib) && g.nsig == OLD(g.nsig) && g.reaps == OLD(g.reaps) && g.poll_calls == OLD(g.poll_calls) && g.may_block == OLD(g.may_block))
   ;
 
+/* Start-up input (C02, C17): every byte is handed to the kernel in order on the
+   stdin pipe (the cursor is checked inside the write contract), the pipe is
+   non-blocking before the first byte, and is closed afterwards so that the
+   child sees end-of-file. On failure the pipe is left to the caller. */
+CONTRACT(setup_input)
+static int setup_input(pipe_type *pipe, const uint8_t *data, size_t size)
+  REQ("C13/setup_input.size_needs_data", data != NULL || size == 0)
+  REQ("C02/setup_input.pipe_is_open_library_pipe", data == NULL || (pipe != NULL && IS_OPEN(*pipe) && IS_LIB(*pipe)))
+  REQ_(data == NULL || (g.in_data == data && g.in_size == size && g.stream_pos == 0 && g.in_fd == -1))
+  ASSIGNS(data != NULL: *pipe; g)
+  ENS("C02/setup_input.no_input_no_effect", IMPLIES(data == NULL, RV == 0 && g.os_calls == OLD(g.os_calls) && FD_LEDGER_UNCHANGED))
+  ENS("C02/setup_input.all_bytes_written_in_order", IMPLIES(data != NULL && RV == 0, g.stream_pos == size))
+  ENS("C02/setup_input.written_to_stdin_pipe", IMPLIES(data != NULL && g.stream_pos > 0, g.in_fd == OLD(*pipe)))
+  ENS("C02/setup_input.stdin_closed_after_input", IMPLIES(data != NULL && RV == 0, *pipe == -1 && g.open == (OLD(g.open) & ~MASK_OF(OLD(*pipe))) && g.lib == (OLD(g.lib) & ~MASK_OF(OLD(*pipe)))))
+  ENS("C05/setup_input.failure_leaves_pipe_to_caller", IMPLIES(data != NULL && RV != 0, *pipe == OLD(*pipe) && FD_LEDGER_UNCHANGED))
+  ENS("C17/setup_input.never_blocks", g.may_block == OLD(g.may_block))
+  ENS("C04/setup_input.zero_or_first_failure", RV <= 0 && IMPLIES(RV < 0, g.faults > OLD(g.faults) && IMPLIES(OLD(g.faults) == 0, RV == -g.first_errno)))
+  ENS("C14/setup_input.nothing_else", FD_FRAME_EXCEPT((data != NULL) ? MASK_OF(OLD(*pipe)) : 0u) && g.child_pid == OLD(g.child_pid) && g.nsig == OLD(g.nsig) && g.reaps == OLD(g.reaps) && g.sigmask == OLD(g.sigmask) && g.now == OLD(g.now))
+  ;
+
 CONTRACT(reproc_wait)
 int reproc_wait(reproc_t *process, int timeout)
   REQ("C14/reproc_wait.handle_invariant", process == NULL || INV(process))
